@@ -47,5 +47,5 @@ parwait
 g++ -fsanitize=address $N/bfs.o $N/streams.o $N/bind_cfg.o $N/bind_legacy.o $N/gstuff.o $N/autorecv_v1.o $N/gstuff_v1.o $BUILD/mc_gcc.o -o $BUILD/c05_ndebug
 LIB="$BUILD/bind_cfg.o $BUILD/bind_legacy.o $BUILD/gstuff.o $BUILD/autorecv_v1.o $BUILD/gstuff_v1.o $BUILD/mc.o"
 clang++ -fsanitize=address $BUILD/bfs.o $BUILD/streams.o $LIB -o $BUILD/c05
-echo "receiver_ndebug_gcc_O2 $BUILD/c05_ndebug --only cap3,garbage_prefix,large_buffers,cut_then_frames,two_receivers,alphabet_constants" > $BUILD/runs.txt
+echo "receiver_ndebug_gcc_O2 $BUILD/c05_ndebug --only cap3,garbage_prefix,large_buffers,cut_then_frames,two_receivers,alphabet_constants,long_history" > $BUILD/runs.txt
 echo "receiver $BUILD/c05" >> $BUILD/runs.txt
